@@ -124,11 +124,13 @@ func (s *MonitoredItemService) ChangeNotification(n *ua.NodeID) {
 			val.Value = &ua.DataValue{}
 			val.Value.Status = ua.StatusBad
 			val.Value.EncodingMask |= ua.DataValueStatusCode
+			verifPoint("mis.enqueue", item.Sub.ID, val.ClientHandle, val.Value)
 			item.Sub.NotifyChannel <- val
 			continue
 		}
 		dv := ns.Attribute(n, item.Req.ItemToMonitor.AttributeID)
 		val.Value = dv
+		verifPoint("mis.enqueue", item.Sub.ID, val.ClientHandle, val.Value)
 		item.Sub.NotifyChannel <- val
 	}
 
